@@ -1,6 +1,7 @@
 package types
 
 import (
+	"math"
 	"time"
 
 	sdk "github.com/cosmos/cosmos-sdk/types"
@@ -80,10 +81,37 @@ func CalculateDuration(deposit sdk.Coin, flowRate int64) int64 {
 		decDeposit := sdk.NewDecCoinFromCoin(deposit)
 		decDuration := decDeposit.Amount.QuoTruncateMut(decFlowRate)
 		// note: decimal values are rounded down, e.g. 2628008.9 to just 2628008.
-		return decDuration.TruncateInt64()
+		duration := decDuration.TruncateInt()
+		if !duration.IsInt64() {
+			// longer than an int64 of seconds can express (TruncateInt64 would panic): saturate
+			return math.MaxInt64
+		}
+		return duration.Int64()
 	}
 
 	return 0
+}
+
+// maxStreamTime is the latest time a stored (protobuf) timestamp can represent.
+var maxStreamTime = time.Date(9999, 12, 31, 23, 59, 59, 0, time.UTC)
+
+// AddSecondsToTime returns t + seconds. It does not convert the whole span to a
+// time.Duration, which holds only about 292 years and silently wraps beyond that.
+// ok is false if seconds is negative or the result cannot be stored in a stream.
+func AddSecondsToTime(t time.Time, seconds int64) (time.Time, bool) {
+	if seconds < 0 || t.After(maxStreamTime) || seconds > maxStreamTime.Unix()-t.Unix() {
+		return time.Time{}, false
+	}
+	const maxStep = int64(math.MaxInt64 / int64(time.Second)) // whole seconds one Duration can hold
+	for seconds > 0 {
+		step := seconds
+		if step > maxStep {
+			step = maxStep
+		}
+		t = t.Add(time.Duration(step) * time.Second)
+		seconds -= step
+	}
+	return t, true
 }
 
 func CalculateAmountToClaim(
